@@ -1398,6 +1398,33 @@ func c05Rejects(c *ctx, d *Driver, impl *[]string) {
 		b.Flags |= sam.Unmapped
 		cases = append(cases, b)
 	}
+	// records outside WF that the writer nevertheless accepts: the model must say what the code does with them
+	a = mk()
+	a.Name = "a\x00b" // NUL inside the name
+	cases = append(cases, a)
+	a = mk()
+	a.Seq = sam.Seq{Length: 7, Seq: []sam.Doublet{0x12}} // Length larger than the doublets
+	a.Qual = nil
+	cases = append(cases, a)
+	a = mk()
+	a.Seq = sam.Seq{Length: 1, Seq: []sam.Doublet{0x12, 0x48, 0x88}} // Length smaller than the doublets
+	a.Qual = []byte{30}
+	cases = append(cases, a)
+	a = mk()
+	a.Cigar = nil
+	for i := 0; i < 65536+3; i++ { // more operations than n_cigar_op can count
+		a.Cigar = append(a.Cigar, sam.NewCigarOp(sam.CigarMatch, 1))
+	}
+	cases = append(cases, a)
+	a = mk()
+	a.AuxFields = append(a.AuxFields, sam.Aux{'X', 'Y', 'Z', 'a', 0, 'b'}) // NUL inside a Z payload
+	cases = append(cases, a)
+	a = mk()
+	a.AuxFields = append(a.AuxFields, sam.Aux{'X', 'Y', 'i', 1, 2, 3, 4, 5}) // payload longer than the type says
+	cases = append(cases, a)
+	a = mk()
+	a.Pos, a.TempLen = 1<<40+5, -(1<<35 + 9) // beyond int32: truncated by the writer
+	cases = append(cases, a)
 	for _, rec := range cases {
 		w := c05Copy(rec)
 		var buf bytes.Buffer
@@ -1443,6 +1470,23 @@ func c05Rejects(c *ctx, d *Driver, impl *[]string) {
 			if err == nil {
 				res = "ok " + c05Digest(raw[off:])
 			}
+			// and what the reader makes of it
+			out := c05ReadAll(buf.Bytes(), 1, 0, 10)
+			var all []byte
+			for _, x := range out.recs {
+				all = append(all, c05Ser(x)...)
+			}
+			end := "hang"
+			switch {
+			case out.o.panicked:
+				end = "panic:" + topRepoFrame(out.o.stack)
+			case !out.o.timedOut:
+				end = c05ErrName(out.err)
+			}
+			c.res.hist("reject.read." + end)
+			*impl = append(*impl, res)
+			d.add("c05.rt 0 %d %s", len(h.Refs()), w.args())
+			res = fmt.Sprintf("%d %d %s", len(out.recs), c05Fnv(all), end)
 		}
 		*impl = append(*impl, res)
 		c.res.eval("reject:"+w.args(), true)
